@@ -176,6 +176,26 @@ Section Generic.
     gw_day Soilfile grw gw ampl s series zeit = Some grw.
   Proof. intros. repeat split. Qed.
 
+  (* ---- the reader keeps every row of the id, in order ---- *)
+  Lemma gw_read_spec : forall (rows : list (Z * Z * T)) id,
+    gw_read rows id = map (fun r => (snd (fst r), snd r)) (filter (fun r => Z.eqb (fst (fst r)) id) rows).
+  Proof.
+    induction rows as [|[[i d] v] r IH]; intros id; cbn [gw_read filter map fst snd]; [reflexivity|].
+    destruct (Z.eqb i id); cbn [map fst snd]; rewrite IH; reflexivity.
+  Qed.
+
+  Lemma gw_read_keeps_lemma : forall (rows : list (Z * Z * T)) id d v,
+    In (id, d, v) rows -> In (d, v) (gw_read rows id).
+  Proof.
+    intros rows id d v H. rewrite gw_read_spec. apply in_map_iff. exists (id, d, v). split; [reflexivity|].
+    apply filter_In. split; [exact H|]. cbn. apply Z.eqb_refl.
+  Qed.
+
+  (* hence: a date given in the file (ascending rows of that id) has exactly the level given for it *)
+  Lemma gw_file_hit_lemma : forall (rows : list (Z * Z * T)) id d v,
+    StronglySorted Z.lt (dates (gw_read rows id)) -> In (id, d, v) rows -> level (gw_read rows id) d = Some v.
+  Proof. intros. apply gw_hit_lemma; [assumption | apply gw_read_keeps_lemma; assumption]. Qed.
+
   (* the phase the sinusoid uses is the configured one *)
   Lemma gw_phase_lemma : forall (p : Z) (tag : T), sin_arg tag (gw_phase_of_config p) = sin_arg tag p.
   Proof. reflexivity. Qed.
